@@ -20,11 +20,12 @@ ASSUMPTIONS = ["pre-emption at line granularity in the runner/storage modules an
                "locks are wrapped so that waiting is a scheduler decision; the locks themselves are real"]
 COMPONENTS = {"real": ["twosigma.memento (all)", "real threads, real thread-local call stacks, real locks", "tmpfs"],
               "stub": ["choice of which thread runs next (seeded scheduler)", "lock waiting", "uuid4, clock"]}
-REACH = ["granularity:opcode", "granularity:wide", "context_calls", "exception_calls", "stale_version_runs", "preemptions", "forced_switches", "lock_contention", "cache_evictions", "batch_calls", "schedules_with_same_key_race"]
+REACH = ["post_lifetime_checks", "fan_out_cases", "granularity:opcode", "granularity:wide", "context_calls", "exception_calls", "stale_version_runs", "preemptions", "forced_switches", "lock_contention", "cache_evictions", "batch_calls", "schedules_with_same_key_race"]
 
 PROGRAM = '''
 import twosigma.memento as m
 from twosigma.memento.partition import InMemoryPartition
+from twosigma.memento.result import KeyOverrideResult
 
 @m.memento_function
 def bad(x):
@@ -40,6 +41,22 @@ def catcher(x):
         return ["caught", str(e)[:5], leaf(x)]
 
 @m.memento_function
+def ko(x):
+    __vtrace__("ko", x)
+    return KeyOverrideResult("K" * 300 + str(x), "shared/latest")     # every argument writes the same override key
+
+@m.memento_function
+def tiny(x):
+    return x
+
+@m.memento_function
+def wide(x):
+    __vtrace__("wide", x)
+    r = tiny.map_over_range(x=range(1300 * x))     # a fan-out over many distinct calls while this call is in flight
+    __vhint__()
+    return [len(r), x]
+
+@m.memento_function
 def part(x):
     __vtrace__("part", x)
     return InMemoryPartition({"a": leaf(x), "b": [x, "p"]})
@@ -52,7 +69,9 @@ def leaf(x):
 @m.memento_function
 def mid(x):
     __vtrace__("mid", x)
-    return [leaf(x), leaf(x + 1)]
+    a = leaf(x)
+    __vhint__()
+    return [a, leaf(x + 1)]
 
 @m.memento_function
 def f(x):
@@ -62,7 +81,9 @@ def f(x):
 @m.memento_function
 def top(x):
     __vtrace__("top", x)
-    return [mid(x), f(x)]
+    a = mid(x)
+    __vhint__()
+    return [a, f(x)]
 '''
 
 
@@ -81,6 +102,10 @@ def expect(fn, x):
     if fn == "part":
         from twosigma.memento.partition import InMemoryPartition
         return InMemoryPartition({"a": expect("leaf", x), "b": [x, "p"]})
+    if fn == "wide":
+        return [1300 * x, x]
+    if fn == "ko":
+        return "K" * 300 + str(x)
     if fn == "leaf":
         return "L" * 700 + str(x)
     if fn == "mid":
@@ -90,6 +115,21 @@ def expect(fn, x):
     if fn == "top":
         return [expect("mid", x), expect("f", x)]
     raise KeyError(fn)
+
+
+def provenance(fn, x):
+    """(direct memento calls in order as (function, argument), functions invoked transitively incl. itself)"""
+    if fn == "mid":
+        return [["leaf", x], ["leaf", x + 1]], {"mid", "leaf"}
+    if fn == "top":
+        return [["mid", x], ["f", x]], {"top", "mid", "leaf", "f"}
+    if fn == "catcher":
+        return [["bad", x], ["leaf", x]], {"catcher", "bad", "leaf"}
+    if fn == "part":
+        return [["leaf", x]], {"part", "leaf"}
+    if fn == "wide":
+        return None, {"wide", "tiny"}
+    return [], {fn}
 
 
 class ExpectedExc:
@@ -108,7 +148,7 @@ def matches(got, exp):
 
 def closure(fn, x, ctx=None):
     """distinct calls (incl. nested) behind one call; ctx = the context argument they run under"""
-    if fn in ("leaf", "f", "bad"):
+    if fn in ("leaf", "f", "bad", "wide", "ko"):      # (the fan-out of wide is not traced)
         return {(fn, x, ctx)}
     if fn == "mid":
         return {(fn, x, ctx), ("leaf", x, ctx), ("leaf", x + 1, ctx)}
@@ -130,7 +170,8 @@ def gen_case(seed, tier):
     fns = ["f", "leaf", "mid", "top"]
     rich = rng.random() < 0.5     # exceptions, partitions, context arguments, ignore_result
     if rich:
-        fns = fns + ["bad", "catcher", "part"]
+        fns = fns + ["bad", "catcher", "part", "ko", "ko"]
+    fan = rng.random() < 0.02     # one thread's call fans out over 1300 distinct calls while the others run
     threads = {}
     base = [rng.choice(fns), rng.randrange(3)]
     for t in range(nthreads):
@@ -152,6 +193,10 @@ def gen_case(seed, tier):
             else:
                 script.append(["call", fn, x])
         threads["T%d" % t] = script
+    if fan:
+        threads["T0"] = [["call", "wide", 1]] + threads["T0"][:1]
+        if rng.random() < 0.6:
+            threads["T1"] = threads["T1"][:1] + [["call", "wide", 1]]
     r = rng.random()
     if r < 0.45:
         strat = {"kind": "random", "p": rng.choice([0.005, 0.02, 0.1])}
@@ -160,6 +205,13 @@ def gen_case(seed, tier):
     else:
         strat = {"kind": "sweep", "at": rng.randrange(1, 3000), "to": rng.randrange(2), "first": rng.randrange(nthreads)}
     case = {"seed": seed, "backend": backend, "scenario": scenario, "keymode": keymode, "threads": threads, "strategy": strat}
+    if fan:
+        case["step_cap"] = 6000000
+        case["backend"] = "memory"
+        if scenario == "warm-store":
+            case["scenario"] = "warm-cache"
+        if strat["kind"] == "random":
+            strat["p"] = 0.0005
     g = rng.random()
     if g < 0.15:
         case["granularity"] = "opcode"    # pre-emption between the bytecodes of one line in the runner / storage modules
@@ -188,10 +240,22 @@ def cases(tier, seed):
         ("fs+cache", "warm-store", {"T0": [["call", "f", 1], ["call", "f", 2]], "T1": [["call", "f", 2], ["call", "f", 3]]}),
         ("memory", "cold", {"T0": [["call", "top", 0]], "T1": [["batch", "leaf", [0, 1, 0]]]}),
         ("fs", "cold", {"T0": [["batch", "f", [1, 2]]], "T1": [["batch", "f", [2, 1]]]}),
+        # two writers of one override key, and of one content object (equal bytes from different calls)
+        ("fs", "cold", {"T0": [["call", "ko", 1]], "T1": [["call", "ko", 2]]}),
+        ("fs+cache", "cold", {"T0": [["call", "catcher", 1]], "T1": [["call", "part", 1], ["call", "leaf", 1]]}),
+        # a batch whose pre-check sees a call that another thread is just memoizing, and whose other elements then push
+        # that entry out of the small cache
+        ("fs+cache", "cold", {"T0": [["call", "f", 2]], "T1": [["batch", "f", [0, 1, 3, 2]]]}),
     ]
+    # a call in flight while more than a thousand other distinct calls pass through the runner; the second caller arrives
+    # at the hint placed after the fan-out (whoever starts first)
+    for first in (0, 1):
+        out.append({"seed": 7900 + first, "backend": "memory", "scenario": "cold", "keymode": "sweep", "step_cap": 4000000,
+                    "threads": {"T0": [["call", "wide", 1]], "T1": [["call", "wide", 1]]},
+                    "strategy": {"kind": "hint", "at_hint": 1, "to": 0, "first": first}})
     for bi, (backend, scen, threads) in enumerate(bases):
         for first in (0, 1):
-            for at in range(1, 2600 if tier == "thorough" else 1400, stride):
+            for at in range(1, 2600 if tier == "thorough" else 1400, 2 if (stride > 1 and bi == 5) else stride):
                 out.append({"seed": 7000 + bi, "backend": backend, "scenario": scen, "keymode": "sweep", "threads": threads,
                             "strategy": {"kind": "sweep", "at": at, "to": 0, "first": first}})
     return out
@@ -258,7 +322,7 @@ def execute(case):
             world.load_module("vprog", EXTRA)
         gran = case.get("granularity", "line")
         sch = simsched.Scheduler(core.stream(case["seed"], "sched"), case["strategy"],
-                                 step_cap=400000 if gran == "opcode" else 120000 if gran == "wide" else 60000,
+                                 step_cap=case.get("step_cap") or (400000 if gran == "opcode" else 120000 if gran == "wide" else 60000),
                                  line_modules=simsched.LINE_MODULES + (("memento.py", "base.py", "context.py", "code_hash.py")
                                                                        if gran == "wide" else ()),
                                  opcodes=gran == "opcode")
@@ -336,6 +400,7 @@ def execute(case):
                                         e.memento.invocation_metadata.fn_reference_with_args.effective_kwargs.get("x") == c[1]
                                         for k, e in mc.cache.items()))
         st["steps"] = sch.steps
+        st["fan_out_cases"] = 1 if any(op[1] == "wide" for s_ in case["threads"].values() for op in s_) else 0
         st["batch_calls"] = sum(1 for s in case["threads"].values() for op in s if op[0] == "batch")
         st["context_calls"] = sum(1 for s in case["threads"].values() for op in s if op[0] == "ctx")
         st["exception_calls"] = sum(1 for s in case["threads"].values() for op in s if op[1] in ("bad", "catcher"))
@@ -344,13 +409,63 @@ def execute(case):
         emit({"viol": [[c, f, d] for c, f, d in viol], "stats": st, "results": results, "switches": sch.switches,
               "coarse": coarse, "runs": sorted([list(k) + [v] for k, v in runs.items()])})
 
+    def postlife(emit):
+        """After the threads: a fresh process over the same store, no cache.  Every call the threads made is made once
+        more, sequentially: the store must hand every later caller the correct value without executing anything - a
+        memento must still read its own result (also under an override key other calls wrote to), and no call may have
+        been left un-memoized.  In provenance mode the stored records are compared with the model as well."""
+        world.install_seams(case["seed"] + 1)
+        side = world.SideChannel()
+        world.make_env(root, world.make_storage(kind, root, cache_mb=None))
+        mod = world.load_module("vprog", PROGRAM)
+        bad_ = []
+        for (fn, x, ctx) in sorted(all_calls, key=lambda c: (c[0], c[1], -1 if c[2] is None else c[2])):
+            f = getattr(mod, fn)
+            if ctx is not None:
+                f = f.with_context_args({"k": ctx})
+            side.take()
+            exp = expect(fn, x)
+            try:
+                got = f(x)
+                good = matches(got, exp)
+                shown = values.summary(got)
+            except BaseException as e:  # noqa
+                good = isinstance(exp, ExpectedExc) and matches(e, exp)
+                shown = [type(e).__name__, str(e)[:200]]
+            runs = [[t[0], t[1]] for t in side.take()]
+            if not good:
+                bad_.append(["later-caller-wrong-value", {"fn": fn}, {"call": [fn, x, ctx], "got": shown}])
+            elif runs:
+                bad_.append(["later-caller-recomputed", {"fn": fn}, {"call": [fn, x, ctx], "runs": runs}])
+            elif case.get("provenance"):
+                mem = f.memento(x)
+                inv_exp, deps_exp = provenance(fn, x)
+                if mem is None:
+                    bad_.append(["record-missing", {"fn": fn}, {"call": [fn, x, ctx]}])
+                    continue
+                im = mem.invocation_metadata
+                inv = [[i.fn_reference.function_name, i.effective_kwargs.get("x")] for i in im.invocations]
+                deps = set(d.function_name for d in mem.function_dependencies)
+                if inv_exp is not None and inv != inv_exp:
+                    bad_.append(["record-invocations-differs", {"fn": fn}, {"call": [fn, x, ctx], "got": inv, "expected": inv_exp}])
+                elif deps != deps_exp:
+                    bad_.append(["record-deps-differs", {"fn": fn, "diff": "missing" if deps_exp - deps else "extra"},
+                                 {"call": [fn, x, ctx], "got": sorted(deps), "expected": sorted(deps_exp)}])
+        emit({"post": bad_})
+
     try:
         if case["scenario"] == "warm-store" and kind != "memory":
             core.lifetime(prelife)
         ev, _ = core.lifetime(body)
+        post = []
+        if kind != "memory" and not ev[-1]["viol"]:
+            pev, _ = core.lifetime(postlife)
+            post = pev[-1]["post"]
     finally:
         shutil.rmtree(root, ignore_errors=True)
     r = ev[-1]
+    r["viol"] = r["viol"] + post
+    r["stats"]["post_lifetime_checks"] = 1 if kind != "memory" else 0
     feats_base = {"backend": case["backend"]}
     viol = []
     for c, f, d in r["viol"][:1]:
@@ -364,6 +479,8 @@ def execute(case):
     nontriv = (st.get("preemptions", 0) + st.get("forced_switches", 0)) > 0
     if case["keymode"] in ("same", "mixed", "sweep") and st.get("lock_contention", 0):
         st["schedules_with_same_key_race"] = 1
+    if case.get("provenance"):
+        st["provenance_records_checked"] = 1
     dg = core.digest_of([r["results"], r["switches"], r["runs"], r["viol"]])
     return {"violations": viol, "digest": dg, "nontrivial": nontriv, "stats": st, "steps": steps, "key": r["coarse"],
             "schedule": r["switches"],
